@@ -17,6 +17,7 @@ type (
 	ClientHelloInfo   = tls.ClientHelloInfo
 	CurveID           = tls.CurveID
 	RecordHeaderError = tls.RecordHeaderError
+	Dialer            = tls.Dialer
 )
 
 const (
